@@ -260,6 +260,14 @@ func (rn *Runner) doStep(st Step) {
 	case "shutdown":
 		nd := rn.node(st.N[0])
 		rn.bg(func() { c.ShutdownNode(nd) })
+	case "shutdown-leader":
+		if l := c.Leader(); l != nil {
+			rn.bg(func() {
+				c.ShutdownNode(l)
+				time.Sleep(time.Duration(2*rn.Sc.P.HeartbeatMs) * time.Millisecond)
+				rn.restart(l)
+			})
+		}
 	case "netfaults":
 		c.Net.SetFaults(st.V[0], st.V[1], st.V[2], st.V[3], time.Duration(st.V[4])*time.Millisecond)
 	case "snapshot":
@@ -464,7 +472,7 @@ func Run(sc Scenario, w *World) *Runner {
 	if sc.AutoRestartMs > 0 {
 		c.AutoRestart = time.Duration(sc.AutoRestartMs) * time.Millisecond
 	}
-	w.Log(Ev{K: "Lparams", X: CfgString(c.InitialConfiguration()), A: uint64(sc.P.ElectionMs), B: uint64(sc.P.LeaseMs), C: uint64(sc.P.HeartbeatMs), D: sc.P.Trailing, E: uint64(sc.P.MaxAppend), F: b2u(sc.P.Flavor.Monotonic), Y: sc.Family})
+	w.Log(Ev{K: "Lparams", X: CfgString(c.InitialConfiguration()), A: uint64(sc.P.ElectionMs), B: uint64(sc.P.LeaseMs), C: uint64(sc.P.HeartbeatMs), D: sc.P.Trailing, E: uint64(sc.P.MaxAppend), F: b2u(sc.P.Flavor.Monotonic), Y: sc.Family, Z: fmt.Sprintf("notify_delay_ms=%d", sc.P.NotifyDelayMs)})
 	c.Bootstrap()
 	for cl := 0; cl < sc.Clients; cl++ {
 		rn.cwg.Add(1)
@@ -530,6 +538,12 @@ func Run(sc Scenario, w *World) *Runner {
 	// the election part of the budget: keep waiting while every lagging member still advances;
 	// stop as soon as nobody moved for five election timeouts (that is the "no progress" verdict).
 	rn.waitCatchUp()
+	// readings before anything new is written: a member must reach the leader's commit index
+	// without the help of further entries
+	time.Sleep(2 * time.Duration(sc.P.ElectionMs) * time.Millisecond)
+	for _, nd := range c.Nodes {
+		c.Reading(nd, "preprobe")
+	}
 	w.Log(Ev{K: "m.tail.probe"})
 	// probe write on the leader
 	if l := c.Leader(); l != nil {
